@@ -1,7 +1,7 @@
 (* String-level model of Specifier: construction, .prereleases, contains(), as written in specifiers.py.  Definitions only. *)
 From Coq Require Import List Arith NArith Bool Lia.
 Import ListNotations.
-Require Import S1 VParse VComplete VTop VTop2 VDec Py VMeaning VCmp SpecModel SpecOps Prefix Compat SpecParse SpecSound.
+Require Import S1 VParse VComplete VTop VTop2 VDec Py VMeaning VCmp SpecModel SpecOps Prefix Compat SpecParse SpecSound Canon.
 Open Scope N_scope.
 
 (* Specifier(s)._spec = (operator, version text stripped); None = InvalidSpecifier *)
@@ -12,6 +12,15 @@ Definition Specifier (s : str) : option specifier :=
   | None => None
   end.
 Definition spec_str (sp : specifier) : str := op_txt (sp_op sp) ++ sp_text sp.      (* __str__ *)
+
+(* Specifier._canonical_spec (with the '===' repair: arbitrary text is never normalised) *)
+Definition spec_key (sp : specifier) : oper * str :=
+  match sp_op sp with
+  | OArb => (OArb, sp_text sp)
+  | OCompat => (OCompat, canon false (sp_text sp))
+  | o => (o, canon true (sp_text sp))
+  end.
+
 
 Fixpoint ends_dotstar (s : str) : bool :=
   match s with [a; b] => (a =? 46) && (b =? 42) | _ :: t => ends_dotstar t | [] => false end.
